@@ -502,6 +502,7 @@ type Contract struct {
 	Each      []*Clause // "each q :: P(q)": established for tid(key) by every callback invocation, stable
 	EachVar   []string
 	Fresh     bool // result is a fresh allocation (lib)
+	AtNew     map[string][]*Clause // "atnew T requires P": P holds wherever this function allocates a T
 	NoAlloc   bool
 	Opaque    bool
 	Terminate bool
@@ -782,6 +783,27 @@ func (db *SpecDB) loadFile(path string, lib bool) error {
 				c := &Clause{Kind: "each", Tags: tags, Text: txt, E: e, Where: where, Ord: len(cur.Each) + 1}
 				cur.Each = append(cur.Each, c)
 				cur.EachVar = append(cur.EachVar, strings.TrimSpace(txt[:i]))
+				for _, t := range tags {
+					cur.Props[t] = true
+				}
+			case "atnew":
+				// atnew <Type> requires [tags] expr : expr must hold at every allocation of <Type> in this
+				// function (the point at which a record of that type comes into existence)
+				tn, r2 := splitWord(rest)
+				w2, r3 := splitWord(r2)
+				if w2 != "requires" {
+					return fail(fmt.Errorf("atnew: expected `atnew <Type> requires <expr>`"))
+				}
+				tags, txt := parseTags(r3)
+				e, err := parseSpecExpr(txt)
+				if err != nil {
+					return fail(err)
+				}
+				if cur.AtNew == nil {
+					cur.AtNew = map[string][]*Clause{}
+				}
+				c := &Clause{Kind: "atnew", Tags: tags, Text: txt, E: e, Where: where, Ord: len(cur.AtNew[tn]) + 1}
+				cur.AtNew[tn] = append(cur.AtNew[tn], c)
 				for _, t := range tags {
 					cur.Props[t] = true
 				}
